@@ -147,16 +147,22 @@ func (p Plan) Validate(ctx context.Context, n int, pb ProgressBar) (err error) {
 		}
 	}
 	g, ctx := errgroup.WithContext(ctx)
+	verifPoolCtx("PlanValidate", ctx)
 	// Concurrently validate all the chunks in this plan
 	for i := 0; i < n; i++ {
 		g.Go(func() error {
+			verifPool("PlanValidate", "start", i, -1)
 			for job := range in {
+				verifPool("PlanValidate", "recv", i, job.candidate.indexSegment.lengthChunks())
 				if err := job.candidate.source.Validate(job.file); err != nil {
 					job.candidate.seed.SetInvalid(true)
+					verifPool("PlanValidate", "fail", i, -1)
 					return err
 				}
 				pb.Add(job.candidate.indexSegment.lengthChunks())
+				verifPool("PlanValidate", "ok", i, -1)
 			}
+			verifPool("PlanValidate", "exit", i, -1)
 			return nil
 		})
 	}
@@ -169,14 +175,19 @@ loop:
 			continue
 		}
 		verifYield("PlanValidate.feed")
+		verifPool("PlanValidate", "select", -1, s.indexSegment.first)
 		select {
 		case <-ctx.Done():
+			verifPool("PlanValidate", "break", -1, -1)
 			interrupted = true
 			break loop
 		case in <- Job{s, fileMap[s.source.FileName()]}:
+			verifPool("PlanValidate", "sent", -1, s.indexSegment.first)
 		}
 	}
+	verifPool("PlanValidate", "close", -1, -1)
 	close(in)
+	verifPool("PlanValidate", "wait", -1, -1)
 
 	return waitOrInterrupted(g, interrupted)
 }
